@@ -259,4 +259,65 @@ def run(chk):
         chk.violation(r_nu, "combine", "combineSummaryNumbers computes %s" % rc, cb["file"], cb["l"])
     if env.get("n1") != "(n % (1 << 15))" or env.get("n2") != "((n / (1 << 15)) - 10)":
         chk.violation(r_nu, "split", "splitSummaryNumber computes n1 = %s, n2 = %s; the inverse of the combination is n %% 2^15 and n / 2^15 - 10" % (env.get("n1"), env.get("n2")), sp["file"], sp["l"])
+    # ---- C10.lockstep: a counter that shadows the size of a member container lives as long as the container keeps growing
+    r_ls = chk.rule("C10.lockstep", "in the summary readers, a local counter incremented once per iteration of the loop that appends once per iteration to a member container (so that it is an index into that container) is not declared inside an enclosing loop, where it would restart while the container keeps growing (base-run chains, multiple files)", floor=2)
+
+    def top_level(body):
+        return stmt_list(body)
+
+    def is_inc(s_, name=None):
+        s0 = s_
+        if s0["k"] == "Un" and "++" in (s0.get("op") or "") and s0.get("c") and strip(s0["c"][0])["k"] == "Ref":
+            return strip(s0["c"][0])["n"]
+        if s0["k"] == "Bin" and s0.get("asg") and s0.get("op") == "+=" and strip(s0["c"][0])["k"] == "Ref" and strip(s0["c"][1]).get("k") == "Int" and strip(s0["c"][1])["v"] == 1:
+            return strip(s0["c"][0])["n"]
+        return None
+
+    def member_push(s_):
+        m_, o_ = meth(s_)
+        if m_ in ("push_back", "emplace_back") and o_ is not None:
+            o0 = strip(o_)
+            if o0["k"] == "Mem" and strip(o0.get("b") or {"k": "This"})["k"] == "This":
+                return o0["n"]
+        return None
+    for f in fx.fns:
+        if not f.get("body") or not f["file"].endswith(("ESmry.cpp", "ExtESmry.cpp")) or not (f.get("cls") or "").endswith(("ESmry", "ExtESmry")):
+            continue
+        decl_loops = {}
+
+        def visit(n, loops):
+            k = n["k"]
+            if k == "Decl":
+                for v in n["vars"]:
+                    decl_loops.setdefault(v["n"], list(loops))
+            if k in ("While", "For", "Do", "ForRange"):
+                inner = loops + [n]
+                body = n["body"]
+                tops = top_level(body)
+                pushes = [member_push(x) for x in tops if member_push(x)]
+                incs = [is_inc(x) for x in tops if is_inc(x)]
+                for v in incs:
+                    for c_ in sorted(set(pushes)):
+                        if pushes.count(c_) != 1 or incs.count(v) != 1:
+                            continue
+                        outer = [e for e in loops if e in decl_loops.get(v, [])]
+                        key = "%s:%s~%s@%d" % (f["q"].split("::")[-1], v, c_, n["l"])
+                        chk.instance(r_ls, key, sample=dict(function=f["q"], counter=v, container=c_, loop_line=n["l"], declared_inside_enclosing_loop=bool(outer)))
+                        if outer:
+                            chk.violation(r_ls, key, "%s: `%s` counts the entries appended to this->%s (one increment and one push_back per iteration of the loop at line %d) but is declared inside the enclosing loop at line %d: it restarts for every file of the chain while %s keeps growing, so indices derived from it (report-step positions) point to the wrong time steps" % (f["q"], v, c_, n["l"], outer[-1]["l"], c_), f["file"], n["l"])
+                for key_ in ("init", "cond", "inc", "range"):
+                    if isinstance(n.get(key_), dict):
+                        visit(n[key_], inner)
+                visit(body, inner)
+                return
+            for ch in (n.get("c") or []) if k == "Block" else []:
+                visit(ch, loops)
+            if k == "If":
+                visit(n["then"], loops)
+                if n.get("else"):
+                    visit(n["else"], loops)
+            if k == "Try":
+                visit(n["body"], loops)
+        visit(f["body"], [])
+
     chk.assumptions += ["the positional seek arithmetic of ESmry::loadData / ExtESmry is not analysed (runtime quantities)"]
